@@ -23,7 +23,7 @@ ITER_PASS = {'map', 'cloned', 'copied', 'collect', 'into_iter', 'iter', 'iter_mu
 NAME_INDEX_MAP = re.compile(r'std::collections::(HashMap|BTreeMap)<((std::string::String|&(\'\w+ )?str), usize|usize, (std::string::String|&(\'\w+ )?str))')
 
 
-def index_stability(prog, rep, rule, only_prefix=None, skip_prefix=None):
+def index_stability(prog, rep, rule, only_prefix=None, skip_prefix=None, also_types=None):
     """R18a / R7d: in every function that builds a name -> usize map, no enumerate() is applied to a sequence that went
     through a length-changing step. Returns the number of enumerate sites examined."""
     n = 0
@@ -35,6 +35,8 @@ def index_stability(prog, rep, rule, only_prefix=None, skip_prefix=None):
         if skip_prefix and owner.name.startswith(skip_prefix):
             continue
         grp_has_map = any(NAME_INDEX_MAP.search(t) for t in owner.ty.values()) or any(NAME_INDEX_MAP.search(t) for t in fn.ty.values())
+        if not grp_has_map and also_types is not None:
+            grp_has_map = any(also_types.search(t) for t in owner.ty.values()) or any(also_types.search(t) for t in fn.ty.values())
         if not grp_has_map:
             continue
         for c in fn.calls:
